@@ -85,17 +85,21 @@ PROPS = {
         pkg="c09", level="exploration",
         tests=[T("TestC09", Q(6000), Q(25000, timeout=900, shards=12, shrinktime="60s")),
                T("TestC09Large", Q(120), Q(800, timeout=900, shards=4, shrinktime="60s")),
-               T("TestC09Many", Q(30, timeout=300, shrinktime="30s"), Q(250, timeout=900, shards=4, shrinktime="60s"))],
+               T("TestC09Many", Q(30, timeout=300, shrinktime="30s"), Q(250, timeout=900, shards=4, shrinktime="60s")),
+               T("TestC09RPC", Q(150, timeout=300, shrinktime="30s"), Q(600, timeout=1200, shards=8, shrinktime="60s"))],
         rule="Generated table contents (0-40 pairs, some deleted again, flushed or not; TestC09Large: 2-6 pairs with values of 0.5-2 MiB incl. exactly 2 MiB so the ~4 MiB size cut "
              "triggers) and 1-8 reads each: bounds from the key mixture incl. wildcard on either side / inverted / empty-present end / single key, limit in {0, matches-2..matches+2, random}, "
              "keys_only / count_only. TestC09Many: 4.5-9 MiB made of thousands of 0.7-6 KiB pairs (several consecutive full messages, per-pair framing overhead matters). Every read runs through Lookup(Range), Lookup(IteratorRequest) consumed at once, and "
              "Lookup(IteratorRequest) consumed only after other requests were served by the same state machine; oracle: pairs == model range cut at limit, strictly ascending, count, 'more' iff pairs remain, "
-             "stream concatenation == unbounded read with all-but-last chunk flagged more and every message below 4 MiB, first chunk == unary answer, keys-only/count-only agree. "
+             "stream concatenation == unbounded read with all-but-last chunk flagged more and every message below 4 MiB, first chunk == unary answer, keys-only/count-only agree; a fourth streamed read has deletes/puts/overwrites inside its range "
+             "applied right after its first message and must still equal the state the stream started with (single point-in-time view). TestC09RPC: the same cases (small, large-value and many-pairs shapes) loaded into a table of a real storage.Engine and read through "
+             "a real KVServer over loopback gRPC with a default client (4 MiB receive limit, so an oversized message surfaces as an error): KV.Range and KV.IterateRange, linearizable or serializable, optionally with writes sent after the first streamed message "
+             "(server blocked in Send / between messages) - same oracle. "
              "Non-trivial iff a read has limit within +-1 of the number of matches (matches>=2) or a size cut occurred. Distinct = sha256 of case JSON.",
         assumptions=FSM_ASSUME + ["transport limit taken as gRPC's default 4 MiB maximum message size"],
-        technique="property-based testing against a reference model + differential between unary and streamed read paths",
+        technique="property-based testing against a reference model + differential between unary and streamed read paths (state machine level and over real gRPC)",
         level_text="Randomised exploration with limits aimed at the boundary (matches-1, matches, matches+1) and values sized to trigger size-based cuts; read paths cross-checked.",
-        level_note="Trusted: internal/model.Read; gRPC KV paths are exercised in C16/C10 fixtures.",
+        level_note="Trusted: internal/model.Read.",
     ),
     "C19": dict(
         pkg="c19", level="exploration",
